@@ -390,12 +390,33 @@ class Evaluator:
             return self.project(f2, val, [list(x) if isinstance(x, tuple) else x for x in k[3:]], k[:3])
         return v
 
-    def call_fn(self, fn, args):
+    def eval_from(self, fn, bb, env, until):
+        """evaluate from block bb with initial local environment env until every local in `until` has been (re)assigned;
+        returns the environment"""
         fr = Frame(fn)
         self.frames[fr.id] = fr
-        for i, a in enumerate(args):
-            fr.env[1 + i] = a
-        bb = 0
+        fr.env.update(env)
+        pending = set(until)
+        self._until = (fr, pending)
+        try:
+            self.call_fn(fn, [], frame=fr, start=bb)
+        except _Stop:
+            pass
+        finally:
+            self._until = None
+        if pending:
+            raise Unsupported("region ended before %s were assigned" % sorted(pending))
+        return fr.env
+
+    def call_fn(self, fn, args, frame=None, start=0):
+        if frame is None:
+            fr = Frame(fn)
+            self.frames[fr.id] = fr
+            for i, a in enumerate(args):
+                fr.env[1 + i] = a
+        else:
+            fr = frame
+        bb = start
         while True:
             self.steps += 1
             if self.steps > self.max_steps:
@@ -403,6 +424,11 @@ class Evaluator:
             for st in fn.stmts(bb):
                 if st[0] == "=":
                     self.write_place(fr, st[1], self.rvalue(fr, st[2]))
+                    u = getattr(self, "_until", None)
+                    if u and u[0] is fr and len(st[1]) == 1 and st[1][0] in u[1]:
+                        u[1].discard(st[1][0])
+                        if not u[1]:
+                            raise _Stop()
                 elif st[0] == "setdiscr":
                     raise Unsupported("setdiscr")
             t = fn.term(bb)
@@ -440,6 +466,10 @@ class Evaluator:
                 raise Unsupported("unreachable reached in %s" % fn.path)
             else:
                 raise Unsupported("terminator %s" % k)
+
+
+class _Stop(Exception):
+    pass
 
 
 class ExtPlace:
